@@ -510,33 +510,28 @@ def _record_fields(mod, ctor: ast.expr) -> list[str] | None:
     return [st.target.id for st in ci.node.body if isinstance(st, ast.AnnAssign) and isinstance(st.target, ast.Name)]
 
 
-def _inline_parse_helper(corpus: Corpus, loader: FunctionInfo):
-    """(new function tree, helper) with the per-line parse helper inlined into the loader's loop, or None."""
+def _inline_parse_helper(corpus: Corpus, loader: FunctionInfo, pred):
+    """(new function tree, helper) with the per-line parse helper (``pred(helper)``) inlined into the loader's
+    loop, or None. Call forms: ``res = helper(line)`` (followed by ``if res is None: continue`` when the helper can
+    return None) or the call nested as an argument of an expression statement (``store(inv, helper(line))``)."""
     mod = loader.module
     lt = _fresh(loader)
     if lt is None:
         return None
     for loop in [n for n in ast.walk(lt) if isinstance(n, ast.For)]:
         for i, st in enumerate(loop.body):
-            if not (isinstance(st, ast.Assign) and len(st.targets) == 1 and isinstance(st.targets[0], ast.Name) and isinstance(st.value, ast.Call) and isinstance(st.value.func, ast.Name)):
+            call = None
+            nested = False
+            if isinstance(st, ast.Assign) and len(st.targets) == 1 and isinstance(st.targets[0], ast.Name) and isinstance(st.value, ast.Call) and isinstance(st.value.func, ast.Name):
+                call, res = st.value, st.targets[0].id
+            elif isinstance(st, ast.Expr) and isinstance(st.value, ast.Call):
+                for a in list(st.value.args) + [kw.value for kw in st.value.keywords]:
+                    if isinstance(a, ast.Call) and isinstance(a.func, ast.Name) and a.func.id in mod.functions:
+                        call, res, nested = a, "_entry", True
+            if call is None:
                 continue
-            helper = mod.functions.get(st.value.func.id)
-            if helper is None or helper.is_lambda or helper.fq == loader.fq or helper.cls is not None:
-                continue
-            if not any(isinstance(n, ast.Call) and isinstance(n.func, ast.Attribute) and n.func.attr == "groups" for n in helper.local_nodes()):
-                continue  # only the helper that takes the line apart
-            res = st.targets[0].id
-            call = st.value
-            # the caller must skip the line when the helper returned None
-            nxt = loop.body[i + 1] if i + 1 < len(loop.body) else None
-            ok_skip = False
-            if isinstance(nxt, ast.If) and not nxt.orelse and len(nxt.body) == 1 and isinstance(nxt.body[0], ast.Continue):
-                t = nxt.test
-                if isinstance(t, ast.UnaryOp) and isinstance(t.op, ast.Not) and _is_name(t.operand, res):
-                    ok_skip = True
-                if isinstance(t, ast.Compare) and len(t.ops) == 1 and isinstance(t.ops[0], ast.Is) and _is_name(t.left, res) and _is_none(t.comparators[0]):
-                    ok_skip = True
-            if not ok_skip:
+            helper = mod.functions.get(call.func.id)
+            if helper is None or helper.is_lambda or helper.fq == loader.fq or helper.cls is not None or not pred(helper):
                 continue
             hf = _fresh(helper)
             if hf is None or hf.args.vararg or hf.args.kwarg or hf.args.kwonlyargs:
@@ -553,8 +548,26 @@ def _inline_parse_helper(corpus: Corpus, loader: FunctionInfo):
                 continue
             if any(isinstance(n, ast.Return) for l in inner_loops for n in ast.walk(l)):
                 continue
+            may_none = len(rets) > 1
+            # the caller must skip the line when the helper returned None
+            consumed = 1
+            if may_none:
+                if nested:
+                    continue
+                nxt = loop.body[i + 1] if i + 1 < len(loop.body) else None
+                ok_skip = False
+                if isinstance(nxt, ast.If) and not nxt.orelse and len(nxt.body) == 1 and isinstance(nxt.body[0], ast.Continue):
+                    t = nxt.test
+                    if isinstance(t, ast.UnaryOp) and isinstance(t.op, ast.Not) and _is_name(t.operand, res):
+                        ok_skip = True
+                    if isinstance(t, ast.Compare) and len(t.ops) == 1 and isinstance(t.ops[0], ast.Is) and _is_name(t.left, res) and _is_none(t.comparators[0]):
+                        ok_skip = True
+                if not ok_skip:
+                    continue
+                consumed = 2
             # fields of the returned record
             rv = final.value
+            ctor = None
             if isinstance(rv, ast.Call) and not any(isinstance(a, ast.Starred) for a in rv.args):
                 fields = _record_fields(mod, rv.func)
                 if fields is None or len(rv.args) + len(rv.keywords) > len(fields):
@@ -568,13 +581,14 @@ def _inline_parse_helper(corpus: Corpus, loader: FunctionInfo):
                 if fexpr is None or set(fexpr) != set(fields):
                     continue
                 positional = [fexpr[f] for f in fields]
+                ctor = rv.func
             elif isinstance(rv, ast.Tuple):
-                fields, fexpr, positional = [], {}, list(rv.elts)
+                fields, positional = [], list(rv.elts)
             else:
                 continue
             # parameters
             params = [a.arg for a in hf.args.posonlyargs + hf.args.args]
-            pargs = {}
+            pargs: dict | None = {}
             for j, a in enumerate(call.args):
                 if isinstance(a, ast.Starred) or j >= len(params):
                     pargs = None
@@ -591,6 +605,8 @@ def _inline_parse_helper(corpus: Corpus, loader: FunctionInfo):
                 continue
             # names: helper locals that collide with the caller's are renamed
             caller_names = {n.id for n in ast.walk(lt) if isinstance(n, ast.Name)} | {a.arg for a in lt.args.args}
+            if nested and res in caller_names:
+                continue
             helper_locals = set(params) | {n.id for b in body for n in ast.walk(b) if isinstance(n, ast.Name) and isinstance(n.ctx, ast.Store)}
             ren = {}
             for nm in helper_locals:
@@ -604,39 +620,64 @@ def _inline_parse_helper(corpus: Corpus, loader: FunctionInfo):
             for p_ in params:
                 tgt = ren.get(p_, p_)
                 if not _is_name(pargs[p_], tgt):
-                    a_ = ast.Assign(targets=[ast.Name(id=tgt, ctx=ast.Store())], value=pargs[p_], lineno=st.lineno)
-                    new_body.append(a_)
-            # uses of the result in the rest of the loop body
-            rest = loop.body[i + 2 :]
-            uses_ok = True
-            outside = [n for n in ast.walk(lt) if isinstance(n, ast.Name) and n.id == res and not any(n is x for r_ in rest for x in ast.walk(r_)) and n is not st.targets[0] and not any(n is x for x in ast.walk(nxt))]
-            if outside:
-                continue
+                    new_body.append(ast.Assign(targets=[ast.Name(id=tgt, ctx=ast.Store())], value=pargs[p_], lineno=st.lineno))
+            # uses of the result
+            if nested:
+                rest = [st] + loop.body[i + 1 :]
+            else:
+                rest = loop.body[i + consumed :]
+                skipped = loop.body[i + 1 : i + consumed]
+                outside = [n for n in ast.walk(lt) if isinstance(n, ast.Name) and n.id == res and n is not st.targets[0] and not any(n is x for r_ in rest for x in ast.walk(r_)) and not any(n is x for s_ in skipped for x in ast.walk(s_))]
+                if outside:
+                    continue
             binds: list = []
             fvar: dict = {}
-            for f_, e_ in zip(fields, positional):
-                if isinstance(e_, ast.Name):
-                    fvar[f_] = e_.id
+            simple: list = []
+            for idx_, e_ in enumerate(positional):
+                f_ = fields[idx_] if idx_ < len(fields) else str(idx_)
+                if isinstance(e_, ast.Name) or isinstance(e_, ast.Constant):
+                    simple.append(e_)
+                    fvar[f_] = e_
                 else:
                     v_ = f"{res}_{f_}"
-                    fvar[f_] = v_
                     binds.append(ast.Assign(targets=[ast.Name(id=v_, ctx=ast.Store())], value=e_, lineno=final.lineno))
+                    fvar[f_] = ast.Name(id=v_, ctx=ast.Load())
+                    simple.append(fvar[f_])
+
+            def whole():
+                elts = [_copy.deepcopy(e) for e in simple]
+                if ctor is not None:
+                    return ast.Call(func=_copy.deepcopy(ctor), args=elts, keywords=[])
+                return ast.Tuple(elts=elts, ctx=ast.Load())
 
             class Rw(ast.NodeTransformer):
                 def visit_Attribute(self, n):
                     if _is_name(n.value, res) and isinstance(n.ctx, ast.Load) and n.attr in fvar:
-                        return ast.copy_location(ast.Name(id=fvar[n.attr], ctx=ast.Load()), n)
+                        return ast.copy_location(_copy.deepcopy(fvar[n.attr]), n)
                     return self.generic_visit(n)
 
                 def visit_Assign(self, n):
                     if _is_name(n.value, res) and isinstance(n.targets[0], (ast.Tuple, ast.List)) and len(n.targets[0].elts) == len(positional):
-                        n.value = ast.copy_location(ast.Tuple(elts=[_copy.deepcopy(e) for e in positional], ctx=ast.Load()), n.value)
+                        n.value = ast.copy_location(ast.Tuple(elts=[_copy.deepcopy(e) for e in simple], ctx=ast.Load()), n.value)
                         return n
+                    return self.generic_visit(n)
+
+                def visit_Call(self, n):
+                    # the record handed on whole (store helper): pass an equivalent constructor call
+                    if nested and any(a is call for a in n.args):
+                        n.args = [ast.copy_location(whole(), a) if a is call else a for a in n.args]
+                    for kw in n.keywords:
+                        if nested and kw.value is call:
+                            kw.value = ast.copy_location(whole(), call)
+                    n.args = [ast.copy_location(whole(), a) if _is_name(a, res) else a for a in n.args]
+                    for kw in n.keywords:
+                        if _is_name(kw.value, res):
+                            kw.value = ast.copy_location(whole(), kw.value)
                     return self.generic_visit(n)
 
             rest = [Rw().visit(r_) for r_ in rest]
             if any(isinstance(n, ast.Name) and n.id == res for r_ in rest for n in ast.walk(r_)):
-                continue  # the record escapes as a whole: not understood
+                continue  # the record escapes in a way that is not understood
 
             class Ret(ast.NodeTransformer):
                 def visit_Return(self, n):
@@ -658,30 +699,49 @@ def _view(corpus: Corpus) -> Corpus:
     def build():
         try:
             A = Anchors(corpus)
-            try:
-                EntryLoop(A.v2, corpus)
-                return corpus  # understood as it is
-            except Unsupported:
-                pass
-            r = _inline_parse_helper(corpus, A.v2)
-            if r is None:
-                return corpus
-            tree, helper = r
             mod = A.inv
-            text = ast.unparse(tree)
-            new_src = mod.src.rstrip("\n") + "\n\n\n" + text + "\n"
-            ov = Corpus.load(corpus.root, overlay={mod.rel: new_src}, base=corpus)
-            nf = ov.mod("inventory").functions.get(A.v2.qualname)
-            if nf is None:
+            trees = []  # (loader, new tree, helper)
+
+            def has_groups(f):
+                return any(isinstance(n, ast.Call) and isinstance(n.func, ast.Attribute) and n.func.attr == "groups" for n in f.local_nodes())
+
+            def has_v1_unpack(f):
+                try:
+                    _v1_unpack(f)
+                    return True
+                except Unsupported:
+                    return False
+
+            try:
+                EntryLoop(A.v2, corpus)  # understood as it is
+            except Unsupported:
+                r = _inline_parse_helper(corpus, A.v2, has_groups)
+                if r is not None:
+                    trees.append((A.v2,) + r)
+            if not has_v1_unpack(A.v1):
+                r = _inline_parse_helper(corpus, A.v1, has_v1_unpack)
+                if r is not None:
+                    trees.append((A.v1,) + r)
+            if not trees:
                 return corpus
-            a, b = list(ast.walk(nf.node)), list(ast.walk(tree))
-            if [type(x) for x in a] == [type(x) for x in b]:
-                for x, y in zip(a, b):
-                    for attr in ("lineno", "end_lineno"):
-                        if hasattr(y, attr) and hasattr(x, attr):
-                            setattr(x, attr, getattr(y, attr))
+            new_src = mod.src.rstrip("\n") + "\n"
+            for _, tree, _h in trees:
+                new_src += "\n\n" + ast.unparse(tree) + "\n"
+            ov = Corpus.load(corpus.root, overlay={mod.rel: new_src}, base=corpus)
+            notes = []
+            for loader, tree, helper in trees:
+                nf = ov.mod("inventory").functions.get(loader.qualname)
+                if nf is None:
+                    return corpus
+                a, b = list(ast.walk(nf.node)), list(ast.walk(tree))
+                if [type(x) for x in a] == [type(x) for x in b]:
+                    for x, y in zip(a, b):
+                        for attr in ("lineno", "end_lineno"):
+                            if hasattr(y, attr) and hasattr(x, attr):
+                                setattr(x, attr, getattr(y, attr))
+                notes.append(f"{loader.fq} analysed with its per-line helper {helper.qualname} inlined into the loop")
             ov._c18_is_view = True
-            ov._c18_view_note = f"{A.v2.fq} analysed with its per-line helper {helper.qualname} inlined into the loop"
+            ov._c18_view_note = "; ".join(notes)
             return ov
         except (AnchorMissing, Unsupported, SyntaxError):
             return corpus
@@ -734,7 +794,7 @@ def r1_regex_equals_sphinx(corpus: Corpus, rep: Report, tier: str):
 # R2 rule chain of the v2 loader
 
 
-def _access_chain(e):
+def _access_chain(e, _depth: int = 0):
     """``a[k1].setdefault(k2, {})[k3]`` -> (a, [k1, k2, k3]) (subscripts and setdefault/get calls mixed)."""
     keys = []
     while True:
@@ -746,7 +806,18 @@ def _access_chain(e):
             e = e.func.value
         else:
             break
-    return e, list(reversed(keys))
+    keys = list(reversed(keys))
+    if isinstance(e, ast.Name) and _depth < 3 and hasattr(e, "_parent"):
+        # a local bound once to a part of the table: items = inv["objects"].setdefault(d, {}).setdefault(o, {})
+        f = enclosing_function(e)
+        if f is not None and e.id not in f.params:
+            defs = [d for d in f.local_nodes() if isinstance(d, (ast.Assign, ast.AnnAssign)) and d.value is not None and any(_is_name(t_, e.id) for t_ in (d.targets if isinstance(d, ast.Assign) else [d.target]))]
+            others = [n for n in f.local_nodes() if isinstance(n, ast.Name) and n.id == e.id and isinstance(n.ctx, ast.Store)]
+            if len(defs) == 1 and len(others) == 1:
+                b2, k2 = _access_chain(defs[0].value, _depth + 1)
+                if k2:
+                    return b2, k2 + keys
+    return e, keys
 
 
 OVERWRITE, KEEP_FIRST = "a later entry replaces an earlier one", "the first entry is kept"
@@ -1195,6 +1266,37 @@ def r2_rule_chain(corpus: Corpus, rep: Report, tier: str):
                 rep.violation("C18.R2", k, mod.site(t), f"the guard `{short(t, 60)}` does not skip exactly the already-present py:module entries (wrong for (is py:module, present) = {wrong})")
     else:
         rep.violation("C18.R2", k, mod.site(L.loop), "no skip path is guarded by `type == \"py:module\"`: of two py:module entries with one name the last wins, Sphinx keeps the first")
+    # (b') the presence test looks into the entry's own [domain][objtype] table
+    tvs_ = _type_vars(fi, R["type"])
+    conts_tabs = [a[2] for _, member in dup for a in member]
+    for t, _pol in pyd:
+        for n_ in ast.walk(t):
+            if isinstance(n_, ast.Compare):
+                conts_tabs += [a[2] for a in _atom(n_, True) if a[0] == "in" and _is_table(a[2])]
+    seen_tabs = set()
+    for tab in conts_tabs:
+        if unparse(tab) in seen_tabs:
+            continue
+        seen_tabs.add(unparse(tab))
+        base_, keys_ = _access_chain(tab)
+        if len(keys_) != 3 or _cstr(keys_[0]) != "objects":
+            continue  # not a [domain][objtype] chain this rule can read; key kinds are R3's
+        k = f"{fi.fq}|py:module duplicate rule|presence looked up in the entry's table"
+        wrong = []
+        for key_, const_, var_ in ((keys_[1], "py", tvs_.get("domain")), (keys_[2], "module", tvs_.get("objtype"))):
+            c_ = _cstr(key_)
+            if c_ is not None:
+                if c_ != const_:
+                    wrong.append(f"{c_!r} where {const_!r} is stored")
+            elif not (isinstance(key_, ast.Name) and var_ is not None and key_.id == var_):
+                wrong = None
+                break
+        if wrong is None:
+            continue
+        if wrong:
+            rep.violation("C18.R2", k, mod.site(tab), f"the duplicate test `{short(tab, 70)}` looks for the name under {', '.join(wrong)}: it never finds the first py:module entry, so the last one wins (Sphinx keeps the first)")
+        else:
+            rep.ok("C18.R2", k, mod.site(tab))
     # (c) '$' expansion reaches the store
     loc, name = R["loc"], R["name"]
     val = _dict_value(item, "loc")
@@ -1450,6 +1552,18 @@ class Kinds:
             if _is_container(kv):
                 return self._index(kv, e.slice)
             return None
+        if isinstance(e, ast.Call) and isinstance(e.func, (ast.Name, ast.Attribute)) and not isinstance(getattr(e.func, "value", None), ast.Call):
+            # a record built from fields: _InvEntry(name, domain, objtype, ...) -> kinds per field
+            fields = _record_fields(self.fi.module, e.func) if dotted(e.func) else None
+            if fields and not any(isinstance(a_, ast.Starred) for a_ in e.args):
+                fx = dict(zip(fields, e.args))
+                fx.update({kw.arg: kw.value for kw in e.keywords if kw.arg})
+                return ("RECV", tuple(sorted((f_, self.kind(x_)) for f_, x_ in fx.items() if isinstance(self.kind(x_), str))))
+        if isinstance(e, ast.Attribute):
+            kv = self.kind(e.value)
+            if isinstance(kv, tuple) and kv and kv[0] == "RECV":
+                return dict(kv[1]).get(e.attr)
+            return None
         if isinstance(e, ast.Call) and isinstance(e.func, ast.Attribute):
             recv = self.kind(e.func.value)
             a = e.func.attr
@@ -1589,6 +1703,16 @@ def _clone(node, mapping: dict):
         return mapping[node.id]
     if not isinstance(node, ast.AST):
         return node
+    if isinstance(node, ast.Attribute) and isinstance(node.ctx, ast.Load):
+        v = _clone(node.value, mapping)
+        if isinstance(v, ast.Call):  # entry.domain with entry := _InvEntry(name, domain, ...)
+            mod = getattr(v, "_mod", None) or getattr(node, "_mod", None)
+            fields = _record_fields(mod, v.func) if mod is not None else None
+            if fields and node.attr in fields and not any(isinstance(a, ast.Starred) for a in v.args):
+                fx = dict(zip(fields, v.args))
+                fx.update({kw.arg: kw.value for kw in v.keywords if kw.arg})
+                if node.attr in fx:
+                    return fx[node.attr]
     new = type(node)()
     for f in node._fields:
         v = getattr(node, f, None)
@@ -1793,6 +1917,8 @@ def r3_key_kinds(corpus: Corpus, rep: Report, tier: str):
                 if k_ is not None and k_ != POISON and k_ != CONFLICT:
                     pk[p_] = k_
             if any(k_ == REC or _is_container(k_) for k_ in pk.values()):
+                # record parameters annotated with a NamedTuple/dataclass whose argument kind is unknown here
+                # (e.g. the value of another helper) would only produce "unknown kind": leave those to the view
                 work.append((t, pk))
                 delegated = True
         if not kinds.checks and fi.fq in planned and not delegated:
@@ -2685,6 +2811,8 @@ def _sym_exec(stmts, env, conds, out, mod, sentinel, skip, A) -> None:
         rec = _sym_store(st, env, mod, sentinel, A)
         if rec is not None:
             out.setdefault(frozenset(conds), []).append(rec)
+        elif isinstance(st, ast.Assign) and len(st.targets) == 1 and isinstance(st.targets[0], ast.Name) and _access_chain(st.value)[1] and isinstance(st.value, (ast.Call, ast.Subscript)):
+            continue  # a local alias of (part of) the table; the store through it is resolved by _entry_store
         elif isinstance(st, ast.Assign) and len(st.targets) == 1 and isinstance(st.targets[0], ast.Name):
             env[st.targets[0].id] = _sym_eval(st.value, env, mod)
         elif isinstance(st, ast.AugAssign) and isinstance(st.target, ast.Name) and isinstance(st.op, ast.Add):
@@ -3074,6 +3202,10 @@ def mutants(corpus: Corpus):
     add("c18-py-module-rule-dropped", "C18.R2", pm_if.test if pm_if else None, "False", "py:module duplicate rule")
     # class "first-wins duplicate rule applied where Sphinx overwrites"
     memb = find_node(v2, lambda n: isinstance(n, ast.Compare) and isinstance(n.ops[0], ast.In) and pm_if is not None and any(n is x for x in ast.walk(pm_if.test)))
+    if memb is not None:
+        b_, k_ = _access_chain(memb.comparators[0])
+        if len(k_) == 3:
+            add("c18-py-module-presence-in-wrong-table", "C18.R2", memb.comparators[0], f'{unparse(b_)}["objects"].get("py", {{}}).get("mod", {{}})', "presence looked up")
     add("c18-first-wins-for-every-type", "C18.R2", pm_if.test if (pm_if is not None and memb is not None) else None, ast.get_source_segment(src, memb) if memb is not None else "", "py:module duplicate rule")
     v1st = find_node(v1, lambda n: isinstance(n, ast.Assign) and _entry_store(n) is not None)
     if v1st is not None:
